@@ -671,6 +671,7 @@ def replay(ctx: Ctx, payload: dict) -> SuiteResult:
 
 
 if __name__ == "__main__":
+    import gentie
     setup_repo_path()
     sys.exit(run_check(
         "C15", lean_modules=["Pamiq.Props.C15"],
@@ -680,7 +681,7 @@ if __name__ == "__main__":
                            "Pamiq.Sched.step_fires_iff", "Pamiq.Sched.psc_call",
                            "Pamiq.Sched.psc_outs", "Pamiq.Sched.double_read_skips",
                            "Pamiq.Sched.time_ctor_guard", "Pamiq.Sched.step_ctor_guard"],
-        suites=[suite_corpus, suite_exhaustive, suite_random, suite_malformed],
+        suites=[gentie.suite_for("C15"), suite_corpus, suite_exhaustive, suite_random, suite_malformed],
         search=search, replay=replay,
         assumptions=["IEEE-754 rounding is not modelled: intervals, clock values and advances are "
                      "dyadic so every float operation of schedulers.py is exact; compared for equality",
